@@ -11,16 +11,16 @@ theorem kwargsCheck_ok {O : Oracles} {t : TailSpec} {m : Msg} (h : tailStrict O 
   unfold kwargsCheck
   cases hv : m.get cs!"kwargs" <;> simp_all <;> rfl
 
-/-- everything before the constructor reads the attributes back -/
-theorem parseStage_marshal (σ : Schema) (O : Oracles)
+/-- the field-by-field part of `parse` reads the attributes back -/
+theorem parseFields_marshal (σ : Schema) (O : Oracles)
     (hwf : σ.wf = true) (hwfO : σ.wfO O = true)
     (m : Msg) (hst : σ.strict O m = true) (hres : σ.residual O m = true) :
-    σ.parseStage O (σ.marshal m) = .ok m := by
+    σ.parseFields O (σ.marshal m) = .ok m := by
   have hnames := (strict_parts hst).1
   have hnd := (wf_parts hwf).1
   have hm : σ.fieldNames.map (fun f => (f, Msg.get m f)) = m := by
     rw [← hnames]; rw [← hnames] at hnd; exact Msg.rebuild m hnd
-  unfold Schema.parseStage
+  unfold Schema.parseFields
   simp only [lengths_marshal hwf, Bool.not_true, Bool.false_eq_true, if_false]
   rw [parsePos_marshal hwf hwfO hst hres, optsOf_marshal' hwf, parseOpts_marshal hwf hwfO hst hres]
   have hcm : σ.customPart O (σ.marshal m) =
@@ -52,6 +52,19 @@ theorem parseStage_marshal (σ : Schema) (O : Oracles)
     congr 1
     conv => rhs; rw [← hm, hfn]
     simp [List.map_append, List.map_map, Function.comp_def, tailMsg, tailFields]
+
+/-- everything before the constructor reads the attributes back: the cross-field checks of `parse` are among the
+constructor's assertions (`wf`), which a valid message satisfies -/
+theorem parseStage_marshal (σ : Schema) (O : Oracles)
+    (hwf : σ.wf = true) (hwfO : σ.wfO O = true)
+    (m : Msg) (hst : σ.strict O m = true) (hres : σ.residual O m = true) :
+    σ.parseStage O (σ.marshal m) = .ok m := by
+  unfold Schema.parseStage
+  rw [parseFields_marshal σ O hwf hwfO m hst hres]
+  have hpc : ctorCross .protocol O m σ.pcross = .ok () :=
+    ctorCross_ok .protocol σ.pcross (fun c hc => (residual_parts hres).2.2 c ((wf_parts hwf).2.2.2.2.2.2.2.2 c hc))
+  simp only [bind, Except.bind, hpc]
+  rfl
 
 /-- the constructor accepts every valid message -/
 theorem ctorStage_valid (σ : Schema) (O : Oracles) (m : Msg) (hst : σ.strict O m = true) (hres : σ.residual O m = true) :
